@@ -203,6 +203,16 @@ RdSignalVerdict(S, ev) ==
     ELSE IF ev.rc # 0 THEN "signal read failed"
     ELSE IF ev.def = SigRec(S.sigs[Idx(S.sigs, ev.id)]) THEN "" ELSE "signal definition differs from the one written (as normalised)"
 
+\* ---- which blocks were omitted (C15): never the first; on request exactly the blocks the
+\* documented one-block delay prescribes (types above 8 bits; below, constant detection rules)
+IdxZerosVerdict(S, ev) ==
+    IF ~FsrAccept(S, ev) THEN ""
+    ELSE LET g == S.sigs[Idx(S.sigs, ev.sig)]
+             Z == { ev.zeros[i] : i \in 1..Len(ev.zeros) }
+         IN IF 0 \in Z THEN "the first block of a signal was omitted"
+            ELSE IF g.bits > 8 /\ Z # g.synth THEN "omitted blocks differ from the documented one-block delay"
+            ELSE ""
+
 \* ---- sample id <-> time (C12); anchors are the UTC pairs written, <<id, t>>
 TicksPerSample(rate) == CASE rate = 1073741824 -> <<1, 1>>
                           [] rate = 268435456 -> <<4, 1>>
@@ -261,6 +271,8 @@ Verdict(S, ev) ==
       [] ev.e = "RdSources" -> RdSourcesVerdict(S, ev)
       [] ev.e = "RdSignals" -> RdSignalsVerdict(S, ev)
       [] ev.e = "RdSignal"  -> RdSignalVerdict(S, ev)
+      [] ev.e = "SumCmp"    -> IF ev.a = ev.b THEN "" ELSE "stored summaries differ between omission on and off"
+      [] ev.e = "IdxZeros"  -> IdxZerosVerdict(S, ev)
       [] ev.e = "I2T"       -> I2TVerdict(S, ev)
       [] ev.e = "T2I"       -> T2IVerdict(S, ev)
       [] ev.e = "Abnormal"  -> "abnormal termination (" \o ev.kind \o ")"
